@@ -569,6 +569,9 @@ def b_list(ex, st, v=None):
             ex.assumed.append('model: list(reversed(xs)) is the mirror image REV(xs) (uninterpreted; same length)')
             r = rev(inner.s)
             st.assume(z3.Length(r) == z3.Length(inner.s))
+            qi = z3.Int(fresh_name('ri'))
+            st.assume(z3.ForAll([qi], z3.Implies(z3.And(qi >= 0, qi < z3.Length(r)),
+                                                 r[qi] == inner.s[z3.Length(r) - 1 - qi]), patterns=[r[qi]]))
             return SeqVal(r, inner.elem)
         if isinstance(inner, (list, tuple)):
             return list(reversed(inner))
